@@ -78,6 +78,7 @@ def _worker(args):
         finally:
             faulthandler.cancel_dump_traceback_later()
         d["run"] = r
+        d["chunk_before"] = [x for x in idxs if x < r]
         d["wall"] = time.time() - t0
         if "trace" in d and not d.get("violations") and (r % keep_every):
             d.pop("trace", None)
@@ -150,6 +151,32 @@ def write_replay(spec: CheckSpec, seed: int, run: int, doc: dict) -> str:
     with open(path, "w") as f:
         json.dump(doc, f, indent=1, default=str)
     return path
+
+
+def confirm_run_sequence(spec: CheckSpec, seed: int, run: int, before: list, oid: str, msg: str):
+    """Shortest tail of `before` + [run] that reproduces `oid` in a fresh interpreter."""
+    d = os.path.join(env.OUT_ROOT, "replays")
+    os.makedirs(d, exist_ok=True)
+    path = os.path.join(d, f"{oid.replace('/', '_')}-{seed}-{run}-sequence.json")
+    tried = set()
+    n = 1
+    while before:
+        tail = before[-n:]
+        if tuple(tail) in tried:
+            break
+        tried.add(tuple(tail))
+        doc = {"property": spec.pid, "kind": "run-sequence", "seed": seed, "runs": tail + [run], "expected": {"oracle": oid, "msg": msg},
+               "note": "state carried from one run to the next inside one interpreter: the listed runs are executed in order, the last one must violate"}
+        with open(path, "w") as f:
+            json.dump(doc, f, indent=1)
+        if confirm_replay(spec, path):
+            return path
+        if n >= len(before):
+            break
+        n = min(len(before), n * 2)
+    if os.path.exists(path):
+        os.remove(path)
+    return None
 
 
 def confirm_replay(spec: CheckSpec, path: str) -> bool:
@@ -287,8 +314,17 @@ def run_check(spec: CheckSpec, tier: str, seed: int, workers: int | None = None,
             path = write_replay(spec, seed, r, doc)
             ok = confirm_replay(spec, path)
             if not ok:
-                print(f"HARNESS-ERROR: replay {path} did not reproduce in a fresh interpreter", flush=True)
-                return env.EXIT_HARNESS
+                # The run does not fail on its own in a fresh interpreter: does it
+                # fail after the runs that preceded it in its worker process? Then
+                # the code under test carries state from one run to the next
+                # (module-level caches, class attributes), and the replay file is
+                # the shortest tail of predecessor runs that reproduces it.
+                seq_path = confirm_run_sequence(spec, seed, r, d.get("chunk_before", []), oid, v["msg"])
+                if seq_path is None:
+                    print(f"HARNESS-ERROR: replay {path} did not reproduce in a fresh interpreter", flush=True)
+                    return env.EXIT_HARNESS
+                os.remove(path)
+                path = seq_path
             reported.append((oid, path))
             print(f"VIOLATION property={spec.pid} replay={path}", flush=True)
             print(f"  oracle={oid} seed={seed} run={r} steps={len(doc['trace'])}: {doc['expected']['msg'][:300]}", flush=True)
@@ -355,7 +391,12 @@ def run_check(spec: CheckSpec, tier: str, seed: int, workers: int | None = None,
 def run_replay(spec: CheckSpec, path: str) -> int:
     with open(path) as f:
         doc = json.load(f)
-    vs = spec.replay_fn(doc)
+    if doc.get("kind") == "run-sequence":
+        vs = []
+        for r in doc["runs"]:
+            vs = spec.run_one(doc["seed"], r).get("violations", [])
+    else:
+        vs = spec.replay_fn(doc)
     want = doc.get("expected", {}).get("oracle")
     hit = [v for v in vs if v["oracle"] == want] if want else vs
     if hit:
